@@ -225,6 +225,11 @@ def handle (op : String) (args : List String) : String :=
     match parseApi api, sequenceOpt (files.map parseFile) with
     | some api, some files => run api files
     | _, _ => "bad-request"
+  | "C12.hof", api :: files =>
+    -- the same program semantics as `C12.run`; the harness judges these requests strictly (no known deviation accepted)
+    match parseApi api, sequenceOpt (files.map parseFile) with
+    | some api, some files => run api files
+    | _, _ => "bad-request"
   | "C12.tame", api :: files =>
     match parseApi api, sequenceOpt (files.map parseFile) with
     | some api, some files => classify api files
